@@ -6,13 +6,17 @@ import os
 import shutil
 import tempfile
 
-from ..common import Ctx, S, unS, run_model, known_matcher
+import glob
+import json
+
+from ..common import Ctx, S, unS, run_model, known_matcher, sx_opt, VERIF
 from .. import trees
 from ..trees import build, safe_call
 from ..snapshot import snapshot, structure, mutable_ids
 
 import htmltools
 from htmltools import HTML, HTMLDependency, HTMLDocument, MetadataNode, Tag, TagList
+from htmltools._core import TagAttrDict
 
 WHAT_DEP_SHARE = ("tagify() copy of a dependency shares internal objects (head child list / script, stylesheet, "
                   "meta lists) with the original")
@@ -82,7 +86,7 @@ def rand_tree(rng, depth, root=None, custom=False):
     return d
 
 
-OPS = ["tagify", "render", "str", "repr", "html", "deps", "copy", "doc", "doc_attrs", "save", "eq"]
+OPS = ["tagify", "render", "str", "repr", "html", "deps", "copy", "doc", "doc_attrs", "save", "eq", "hoist"]
 
 
 def apply_op(op, x, rng):
@@ -106,6 +110,11 @@ def apply_op(op, x, rng):
         return HTMLDocument(x, lang="en", class_=HTML("c")).render()
     if op == "eq":
         return x == x.tagify()
+    if op == "hoist":
+        # the static helper called on its own: it must copy before inserting head content
+        if isinstance(x, Tag) and x.name == "html":
+            return HTMLDocument._hoist_head_content(x, rng.choice([None, "lib"]), rng.random() < 0.5)
+        return None
     if op == "save":
         d = tempfile.mkdtemp(prefix="verif-c08-")
         try:
@@ -135,18 +144,601 @@ def all_deps(x, acc):
     return acc
 
 
+# ---- correspondence with the heap model (coq/Model/Heap.v, HeapOps.v) --------------------------
+# A live object graph is encoded as a heap: every Tag, TagAttrDict, TagList, MetadataNode and
+# tagifiable object becomes one heap object; its location is its first-visit number in a
+# pre-order walk from the roots (tag, then its attribute map, then its child list, then the
+# children).  The same walk over a decoded model heap gives the model's canonical form, so two
+# canonical forms are equal iff the graphs are isomorphic INCLUDING all sharing between the
+# input and every result.  str, HTML and _repr_html_-only objects are values (no identity).
+FUEL = 64
+DOC_VARIANTS = [({}, "lib", True), ({"lang": "en", "class_": HTML("c")}, "lib", True), ({}, None, False)]
+STAMP = "_verif_payload"   # copies made by copy.copy carry the attribute along
+
+
+def _val_py(c, visit):
+    if isinstance(c, str):
+        return [0, S(c)]
+    if isinstance(c, HTML):
+        return [1, S(c.as_string())]
+    if isinstance(c, (Tag, TagList, TagAttrDict, MetadataNode, trees.CustomObj)):
+        return [3, visit(c)]
+    if isinstance(c, trees.ReprObj):
+        return [2, S(c.s)]
+    raise TypeError(f"cannot encode {type(c).__name__}")
+
+
+def encode_py(roots):
+    """canonical heap of the live graph below roots; returns (heap sx, root locations)"""
+    seen: dict[int, int] = {}
+    heap: list = []
+    keep = []
+
+    def visit(x):
+        if id(x) in seen:
+            return seen[id(x)]
+        n = len(heap)
+        seen[id(x)] = n
+        keep.append(x)
+        heap.append(None)
+        if isinstance(x, Tag):
+            al = visit(x.attrs)
+            kl = visit(x.children)
+            heap[n] = [0, S(x.name), 1 if x.add_ws else 0, al, kl]
+        elif isinstance(x, TagAttrDict):
+            heap[n] = [1, [[S(k), [1 if isinstance(v, HTML) else 0, S(str(v))]] for k, v in x.items()]]
+        elif isinstance(x, TagList):
+            items = list(x.data)
+            heap[n] = [2, None]
+            heap[n] = [2, [_val_py(c, visit) for c in items]]
+        elif isinstance(x, MetadataNode):
+            heap[n] = [3, getattr(x, STAMP)]
+        elif isinstance(x, trees.CustomObj):
+            sh = x.s if isinstance(x, trees.CustomReprObj) else None
+            heap[n] = [4, sx_opt(None if sh is None else S(sh)), [_val_py(c, visit) for c in x.exp]]
+        else:
+            raise TypeError(f"cannot encode {type(x).__name__}")
+        return n
+
+    locs = [visit(r) for r in roots]
+    return heap, locs
+
+
+def canon_model(heap, roots):
+    """the same walk over a decoded model heap"""
+    seen: dict[int, int] = {}
+    out: list = []
+
+    def val(v):
+        return [3, visit(v[1])] if v[0] == 3 else v
+
+    def visit(l):
+        if l in seen:
+            return seen[l]
+        n = len(out)
+        seen[l] = n
+        out.append(None)
+        o = heap[l]
+        if o[0] == 0:
+            al = visit(o[3])
+            kl = visit(o[4])
+            out[n] = [0, o[1], o[2], al, kl]
+        elif o[0] == 1:
+            out[n] = o
+        elif o[0] == 2:
+            out[n] = [2, [val(v) for v in o[1]]]
+        elif o[0] == 3:
+            out[n] = o
+        else:
+            out[n] = [4, o[1], [val(v) for v in o[2]]]
+        return n
+
+    locs = [visit(r) for r in roots]
+    return out, locs
+
+
+def node_sx(c):
+    """an identity-free tree (Codec.v node) of a live child, for the dependency tag table"""
+    if isinstance(c, str):
+        return [0, S(c)]
+    if isinstance(c, HTML):
+        return [1, S(c.as_string())]
+    if isinstance(c, Tag):
+        return [4, S(c.name), 1 if c.add_ws else 0,
+                [[S(k), [1 if isinstance(v, HTML) else 0, S(str(v))]] for k, v in c.attrs.items()],
+                [node_sx(k) for k in c.children]]
+    if isinstance(c, MetadataNode):
+        return [3, getattr(c, STAMP, 0)]
+    if isinstance(c, trees.ReprObj):
+        return [2, S(c.s)]
+    raise TypeError(type(c).__name__)
+
+
+def stamp_graph(roots):
+    """give every metadata node reachable from roots (through tags, lists and the children of
+    tagifiable objects) a payload: odd for dependencies, even for other metadata nodes"""
+    metas, seen = [], set()
+
+    def walk(x):
+        if id(x) in seen:
+            return
+        seen.add(id(x))
+        if isinstance(x, MetadataNode):
+            metas.append(x)
+        elif isinstance(x, Tag):
+            walk(x.children)
+        elif isinstance(x, TagList):
+            for c in x.data:
+                walk(c)
+        elif isinstance(x, trees.CustomObj):
+            for c in x.exp:
+                walk(c)
+    for r in roots:
+        walk(r)
+    for i, m in enumerate(metas):
+        setattr(m, STAMP, 2 * i + 1 if isinstance(m, HTMLDependency) else 2 * i + 2)
+    return metas
+
+
+def dep_table(metas):
+    """what C08 does not model, as data for the driver: name, version, and the tags each
+    dependency contributes to <head> under every document variant.  None if a dependency
+    cannot produce its tags (then document operations are left out for this graph)."""
+    tbl = []
+    for m in metas:
+        if not isinstance(m, HTMLDependency):
+            continue
+        ver = str(m.version)
+        try:
+            nums = [int(p) for p in ver.split(".")]
+        except ValueError:
+            return None
+        per_k = []
+        for _, lib_prefix, incl in DOC_VARIANTS:
+            r = safe_call(lambda: m.as_html_tags(lib_prefix=lib_prefix, include_version=incl))
+            if r[0] != "ok":
+                return None
+            try:
+                per_k.append([node_sx(c) for c in r[1]])
+            except TypeError:
+                return None
+        tbl.append([getattr(m, STAMP), S(m.name), nums, S(ver), per_k])
+    return tbl
+
+
+def kw_sx():
+    return [[[S(k), [1 if isinstance(v, HTML) else 0, S(str(v))]] for k, v in kw.items()] for kw, _, _ in DOC_VARIANTS]
+
+
+CORR_OPS = ["tagify", "render", "html", "deps", "copy", "doc", "hoist"]
+
+
+def corr_apply(op, target):
+    """run one operation of the correspondence on the implementation -> (canonical result, new root or None)"""
+    kind = op[0]
+    if kind == "tagify":
+        r = safe_call(lambda: target.tagify())
+        return (("loc",), r[1]) if r[0] == "ok" else (r, None)
+    if kind == "copy":
+        r = safe_call(lambda: copy.copy(target))
+        return (("loc",), r[1]) if r[0] == "ok" else (r, None)
+    if kind == "render":
+        r = safe_call(lambda: target.render())
+        if r[0] != "ok":
+            return r, None
+        return ("render", ("ok", r[1]["html"]), [getattr(d, STAMP) for d in r[1]["dependencies"]]), None
+    if kind == "html":
+        return ("str", safe_call(lambda: target.get_html_string(op[1], op[2]))), None
+    if kind == "deps":
+        r = safe_call(lambda: target.get_dependencies())
+        return (("deps", [getattr(d, STAMP) for d in r[1]]) if r[0] == "ok" else r), None
+    if kind == "doc":
+        kw, lib_prefix, incl = DOC_VARIANTS[op[1]]
+        r = safe_call(lambda: HTMLDocument(target, **kw).render(lib_prefix=lib_prefix, include_version=incl))
+        if r[0] != "ok":
+            return r, None
+        return ("render", ("ok", r[1]["html"]), [getattr(d, STAMP) for d in r[1]["dependencies"]]), None
+    if kind == "hoist":
+        _, lib_prefix, incl = DOC_VARIANTS[op[1]]
+        r = safe_call(lambda: HTMLDocument._hoist_head_content(target, lib_prefix, incl))
+        return (("loc",), r[1]) if r[0] == "ok" else (r, None)
+    raise ValueError(op)
+
+
+def op_sx(op, loc):
+    kind = op[0]
+    if kind == "tagify":
+        return [0, loc]
+    if kind == "render":
+        return [1, loc]
+    if kind == "html":
+        return [2, loc, op[1], S(op[2])]
+    if kind == "deps":
+        return [3, loc]
+    if kind == "copy":
+        return [4, loc]
+    if kind == "hoist":
+        return [6, loc, op[1]]
+    return [5, loc, op[1]]
+
+
+def model_result(r):
+    if r[0] == 0:
+        return ("loc",), r[1]
+    if r[0] == 1:
+        return ("str", trees.res_decode(r[1], unS)), None
+    if r[0] == 2:
+        return ("deps", r[1]), None
+    return ("render", trees.res_decode(r[1], unS), r[2]), None
+
+
+def build_graph(d, shared_desc):
+    shared = []
+    for sd in shared_desc:          # a shared object may refer to the ones before it
+        shared.append(build_x(sd, shared))
+    x = build_x(d, shared)
+    return x, shared
+
+
+def corr_case(rng, d, shared_desc, with_doc=True, ops=None):
+    """one correspondence case: build the graph, choose receivers and operations; returns what
+    is needed to run the implementation and the model"""
+    x, shared = build_graph(d, shared_desc)
+    roots = [x] + [o for o in shared if isinstance(o, (Tag, TagList, MetadataNode, trees.CustomObj))]
+    metas = stamp_graph(roots)
+    tbl = dep_table(metas)
+    heap0, rlocs = encode_py(roots)
+    # receivers: any tag or child list of the graph (the root most often)
+    recv = [i for i, o in enumerate(heap0) if o[0] in (0, 2)]
+    # location -> live object, by the same walk
+    live = _live_objects(roots)
+    n_ops = 0 if ops is not None else rng.choice([1, 2, 3, 5])
+    ops = [(tuple(o), l) for o, l in ops] if ops is not None else []
+    html_tags = [i for i, o in enumerate(heap0) if o[0] == 0 and unS(o[1]) == "html"]
+    for _ in range(n_ops):
+        kind = rng.choice(CORR_OPS if (with_doc and tbl is not None) else CORR_OPS[:-2])
+        loc = rlocs[0] if rng.random() < 0.6 else rng.choice(recv)
+        if kind == "hoist":
+            if not html_tags:
+                kind = "copy"
+            else:
+                loc = rng.choice(html_tags)
+                ops.append((("hoist", rng.randrange(0, len(DOC_VARIANTS))), loc))
+                continue
+        if kind == "html":
+            ops.append((("html", rng.randrange(0, 3), rng.choice(["\n", "", "\r\n"])), loc))
+        elif kind == "doc":
+            ops.append((("doc", rng.randrange(0, len(DOC_VARIANTS))), loc))
+        else:
+            ops.append(((kind,), loc))
+    return {"desc": d, "shared": shared_desc, "ops": ops, "roots": roots, "heap0": heap0, "rlocs": rlocs,
+            "live": live, "tbl": tbl if tbl is not None else []}
+
+
+def _live_objects(roots):
+    """location -> live object, numbering exactly as encode_py does"""
+    seen, order = {}, []
+
+    def visit(x):
+        if id(x) in seen:
+            return
+        seen[id(x)] = len(order)
+        order.append(x)
+        if isinstance(x, Tag):
+            visit(x.attrs)
+            visit(x.children)
+        elif isinstance(x, TagList):
+            for c in list(x.data):
+                if isinstance(c, (Tag, TagList, TagAttrDict, MetadataNode, trees.CustomObj)):
+                    visit(c)
+        elif isinstance(x, trees.CustomObj):
+            for c in x.exp:
+                if isinstance(c, (Tag, TagList, TagAttrDict, MetadataNode, trees.CustomObj)):
+                    visit(c)
+    for r in roots:
+        visit(r)
+    return order
+
+
+def corr_run_impl(case):
+    """run the operations on the live graph; canonical outcome = per-operation results + the
+    canonical heap of [input roots..., result roots...] afterwards"""
+    results, new_roots = [], []
+    for op, loc in case["ops"]:
+        res, root = corr_apply(op, case["live"][loc])
+        results.append(res)
+        if root is not None:
+            new_roots.append(root)
+    try:
+        heap1, locs1 = encode_py(case["roots"] + new_roots)
+    except (TypeError, AttributeError) as e:
+        return {"results": results, "error": f"{type(e).__name__}: {e}"}
+    return {"results": results, "heap": heap1, "roots": locs1}
+
+
+def corr_model_case(case):
+    return [1, FUEL, case["heap0"], [op_sx(op, loc) for op, loc in case["ops"]], kw_sx(), case["tbl"]]
+
+
+def corr_decode(case, m):
+    if isinstance(m, tuple) or m == [999999, 999999]:
+        return {"error": f"driver: {m}"}
+    if m[0] == 1:
+        return {"error": "model: None (out of fuel or ill-formed heap)"}
+    heap, rs = m[1], m[2]
+    results, new_roots = [], []
+    for r in rs:
+        res, root = model_result(r)
+        results.append(res)
+        if root is not None:
+            new_roots.append(root)
+    out = {"results": results, "prefix_unchanged": heap[:len(case["heap0"])] == case["heap0"]}
+    out["heap"], out["roots"] = canon_model(heap, case["rlocs"] + new_roots)
+    return out
+
+
+def correspondence(ctx, name, cases):
+    outs = run_model([corr_model_case(c) for c in cases], driver="c08")
+    bad = []
+    for c, m in zip(cases, outs):
+        iv = corr_run_impl(c)
+        mv = corr_decode(c, m)
+        case_id = {"tree": c["desc"], "shared": c["shared"], "ops": [[list(op), loc] for op, loc in c["ops"]]}
+        ok = ("error" not in iv and "error" not in mv and mv.get("prefix_unchanged")
+              and iv["results"] == mv["results"] and iv["heap"] == mv["heap"] and iv["roots"] == mv["roots"])
+        if not ok:
+            bad.append({"case": case_id, "impl_output": _brief(iv), "model_output": _brief(mv)})
+    ctx.corr_cases += len(cases)
+    ctx.obligation(f"correspondence {name} ({len(cases)} cases)", not bad)
+    if bad:
+        bad.sort(key=lambda b: len(json.dumps(b["case"], default=repr)))
+        ctx.extra[f"disagree_{name}"] = bad[:3]
+    return bad
+
+
+def _brief(v):
+    d = dict(v)
+    if "heap" in d and "error" not in d:
+        d["heap"] = d["heap"][:60]
+    return d
+
+
+def canonical_dep_payload(kw, table):
+    key = json.dumps(kw, sort_keys=True, default=repr)
+    if key not in table:
+        table[key] = 2 * len(table) + 1
+    return table[key]
+
+
+SHARED_DESC = [("G", "em", False, [("class", ("S", "s"))], [("T", "shared")]),
+               ("M", {"name": "shared", "version": "1.0", "head": "<link>"}),
+               ("H", "<raw>"),
+               ("C", None, [("S", 0), ("T", "c"), ("S", 1)], True),
+               ("M", None)]
+
+
+def rand_graph(rng, depth, root, custom):
+    """a description with aliasing: ('S', i) children refer to the shared objects (a tag, a
+    dependency, an HTML value, a tagifiable object whose expansion holds the shared tag and the
+    shared dependency, a plain metadata node)"""
+    d = rand_tree(rng, depth, root, custom)
+
+    def plain_heads(x):
+        # dependency internals are outside the model: a head payload made of Tag objects would
+        # be shared between the <head> of two documents built from the same dependency (F8's
+        # territory); the correspondence graphs use text payloads
+        if x[0] == "G":
+            return ("G", x[1], x[2], x[3], [plain_heads(k) for k in x[4]])
+        if x[0] == "C":
+            return ("C", x[1], [plain_heads(k) for k in x[2]], x[3])
+        if x[0] == "M" and x[1] is not None and isinstance(x[1].get("head"), tuple):
+            return ("M", {**x[1], "head": "<title>t</title>"})
+        return x
+    d = plain_heads(d)
+
+    def alias(x, top=False, in_obj=False):
+        if not top and rng.random() < 0.18:
+            # (an object's expansion holds no further object: the tagify() contract)
+            return ("S", rng.choice([0, 1, 2, 4]) if in_obj else rng.randrange(0, len(SHARED_DESC)))
+        if x[0] == "G":
+            kids = [alias(k, False, in_obj) for k in x[4]]
+            if rng.random() < 0.15:
+                kids.insert(rng.randrange(0, len(kids) + 1),
+                            ("S", rng.choice([0, 1, 2, 4]) if in_obj else rng.randrange(0, len(SHARED_DESC))))
+            return ("G", x[1], x[2], x[3], kids)
+        if x[0] == "C":
+            return ("C", x[1], [alias(k, False, True) for k in x[2]], x[3])
+        return x
+    d = alias(d, True)
+    if root == "html" and rng.random() < 0.5:
+        kids = list(d[4])
+        kids.insert(rng.randrange(0, len(kids) + 1),
+                    ("G", "head", True, [], [("G", "title", True, [], [("T", "t")])]))
+        d = ("G", d[1], d[2], d[3], kids)
+    return d
+
+
+def desc_from_json(d):
+    k = d[0]
+    if k == "G":
+        return ("G", d[1], d[2], [(a[0], (a[1][0], a[1][1])) for a in d[3]], [desc_from_json(x) for x in d[4]])
+    if k == "C":
+        return ("C", d[1], [desc_from_json(x) for x in d[2]], d[3])
+    if k == "M":
+        if d[1] is None:
+            return ("M", None)
+        kw = dict(d[1])
+        if isinstance(kw.get("head"), list):
+            kw["head"] = desc_from_json(kw["head"])
+        return ("M", kw)
+    return tuple(d)
+
+
+def small_graphs():
+    """bounded-exhaustive scope for the thorough tier: every tree with up to two children drawn
+    from a 7-leaf alphabet (with the shared objects), under three roots, every single operation"""
+    leaves = [("T", "a<"), ("H", "<b>"), ("S", 0), ("S", 1), ("S", 3), ("S", 4),
+              ("G", "head", True, [], [("S", 0)]), ("C", "r", [("S", 0)], True)]
+    for root in ["div", "html", "body"]:
+        for a in leaves:
+            yield ("G", root, True, [("id", ("S", "x"))], [a])
+            for b in leaves:
+                yield ("G", root, root != "div", [], [a, ("G", "p", True, [], [b, a])])
+
+
+def eq_variant(d, rng):
+    """(what, variant): a description that must compare equal (what=None) or unequal"""
+    k = rng.randrange(0, 8)
+    if k == 0:
+        return None, d
+    if k == 1 and d[0] == "G":      # same attributes, another insertion order
+        a = list(d[3])
+        rng.shuffle(a)
+        return None, ("G", d[1], d[2], a, d[4])
+    if k == 2 and d[0] == "G":      # str <-> HTML with the same text, in children and attribute values
+        def flip(x):
+            if x[0] == "T" and rng.random() < 0.5:
+                return ("H", x[1])
+            if x[0] == "H" and rng.random() < 0.5:
+                return ("T", x[1])
+            if x[0] == "G":
+                return ("G", x[1], x[2], [(key, ("H" if m == "S" else "S", v)) if rng.random() < 0.5 else (key, (m, v))
+                                          for key, (m, v) in x[3]], [flip(c) for c in x[4]])
+            return x
+        return None, flip(d)
+    if k == 3 and d[0] == "G" and d[4]:   # a change deep in the tree
+        i = rng.randrange(0, len(d[4]))
+        sub = eq_variant(d[4][i], rng)
+        return sub[0], ("G", d[1], d[2], d[3], d[4][:i] + [sub[1]] + d[4][i + 1:])
+    if k == 4 and d[0] in "TH":
+        return "a child's text", (d[0], d[1] + "!")
+    m = _perturb(d, rng)
+    if m is not None:
+        return m
+    return None, d
+
+
 def run(ctx: Ctx) -> None:
     rng = ctx.rng
-    ctx.rule = ("random trees (depth <= 4) with dependencies (head payloads, scripts, stylesheets, meta), HTML(), "
-                "_repr_html_ objects, tagifiable objects, aliasing (one object in several places), html/body/head "
-                "roots; per tree a random interleaving of 3..8 read-only operations, the whole reachable object graph "
-                "snapshotted before and after each; id()-sets of original vs tagify() result; mutation of the copy "
-                "and of the original through the public API; ==, str/repr/_repr_html_/render consistency. "
-                "Non-trivial = tree has a dependency or an object and >= 3 tags; distinct = canonical tree + ops.")
-    ctx.assumptions = ["object identity and aliasing are observed on CPython (id(), is)"]
+    ctx.rule = ("Correspondence: random object graphs (depth <= 4; dependencies, HTML(), _repr_html_ objects, "
+                "tagifiable objects, html/body/head roots) WITH ALIASING -- a shared tag, a shared dependency, a shared "
+                "tagifiable object whose expansion holds both, a shared metadata node, each possibly in several places -- "
+                "encoded as a heap (locations = first-visit numbers); 1..5 operations (tagify, render, get_html_string, "
+                "get_dependencies, copy.copy, HTMLDocument.render in 3 argument variants, _hoist_head_content) on the root, "
+                "a nested tag or a child list; the implementation's graph of [inputs, all results] and every returned "
+                "string / dependency list are compared with the extracted heap model's (same canonical numbering, so all "
+                "sharing between inputs and results is compared); == against the model of _equals_impl on pairs "
+                "(identical, attribute order permuted, str<->HTML with the same text, one field changed); the string forms "
+                "against the pure layer; thorough adds all trees with <= 2 levels over an 8-leaf alphabet under 3 roots "
+                "x 10 operations run twice.  Oracle: per tree a random interleaving of 3..8 read-only operations on the "
+                "tag or its child list, the whole reachable object graph snapshotted before and after each; id()-sets of "
+                "original vs tagify() result; copy.copy owns its attribute map / child list; mutation of the copy and of "
+                "the original through the public API; ==, str/repr/_repr_html_/render consistency.  Non-trivial = graph "
+                "has aliasing, a dependency or an object; distinct = canonical description + operations.")
+    ctx.assumptions = ["object identity and aliasing are observed on CPython (id(), is)",
+                       "dependency internals (head child list, script/stylesheet/meta lists, source dict) are outside the "
+                       "heap model (OMeta carries an opaque payload): known finding F8 lives there; the purity of "
+                       "HTMLDependency.as_html_tags/as_dict/source_path_map/serialize_* and the filesystem effects of "
+                       "save_html are covered by the snapshot oracle only",
+                       "a tagifiable object's tagify() returns fresh, fully tagified nodes on every call (the Tagifiable "
+                       "contract; the harness class does); its expansion holds no further tagifiable object",
+                       "HTMLDocument's attribute update, dependency resolution and the tags a dependency contributes are "
+                       "supplied to the extracted model through the models of C15 / C10 and as data"]
     ctx.proof()
 
-    n = ctx.budget(1200, 20000)
+    # ---- step B: correspondence with the extracted heap model ------------------------------
+    cases = []
+    for f in sorted(glob.glob(os.path.join(VERIF, "corpus", "C08", "*.json"))):
+        with open(f, encoding="utf-8") as fh:
+            for c in json.load(fh)["cases"]:
+                cases.append(corr_case(rng, desc_from_json(c["tree"]), [desc_from_json(x) for x in c["shared"]],
+                                       ops=c["ops"]))
+    for it in range(ctx.budget(400, 9000)):
+        root = rng.choice([None, None, None, "html", "html", "body", "head"])
+        d = rand_graph(rng, rng.choice([1, 2, 2, 3, 4]), root, rng.random() < 0.4)
+        cases.append(corr_case(rng, d, SHARED_DESC))
+    if not ctx.quick:
+        for d in small_graphs():
+            for op in [("tagify",), ("render",), ("copy",), ("deps",), ("html", 1, "\n"), ("doc", 0), ("doc", 1), ("doc", 2),
+                       ("hoist", 0), ("hoist", 2)]:
+                if op[0] == "hoist" and d[1] != "html":
+                    continue
+                c = corr_case(rng, d, SHARED_DESC, ops=[])
+                c["ops"] = [(op, c["rlocs"][0]), (op, c["rlocs"][0])]
+                cases.append(c)
+    ophist: dict[str, int] = {}
+    for c in cases:
+        for op, loc in c["ops"]:
+            key = op[0] + (" on a TagList" if c["heap0"][loc][0] == 2 else "")
+            ophist[key] = ophist.get(key, 0) + 1
+        shared_used = "'S'" in repr(c["desc"])
+        ctx.count(("heap", c["desc"], [[list(o), l] for o, l in c["ops"]]), shared_used or "'M'" in repr(c["desc"]),
+                  "heap correspondence, graph with aliasing" if shared_used else "heap correspondence, tree")
+    ctx.extra["heap_correspondence_operations"] = ophist
+    correspondence(ctx, "heap operations (tagify, render, get_html_string, get_dependencies, copy, HTMLDocument.render) "
+                        "on graphs with aliasing", cases)
+
+    # == against the model of _equals_impl
+    eq_cases, payloads = [], {}
+    for it in range(ctx.budget(600, 12000)):
+        d = trees.rand_tree(rng, rng.choice([0, 1, 2, 3]), leaves="TTHHD", names="bbivsc", custom=False)
+        def fixdeps(x):
+            if x[0] == "G":
+                return ("G", x[1], x[2], x[3], [fixdeps(k) for k in x[4]])
+            if x[0] == "M":
+                return ("M", rand_dep(rng))
+            return x
+        d = fixdeps(d)
+        what, v = eq_variant(d, rng)
+        if rng.random() < 0.1:
+            what, v = "everything", fixdeps(trees.rand_tree(rng, 1, leaves="TH", custom=False))
+        eq_cases.append((d, v, what))
+
+    def dep_payload(kw):
+        return canonical_dep_payload(structure(HTMLDependency(**{k: (build_x(v, []) if isinstance(v, tuple) else v)
+                                                                 for k, v in kw.items()})), payloads)
+    outs = run_model([[2, trees.to_sx(a, dep_payload), trees.to_sx(b, dep_payload)] for a, b, _ in eq_cases], driver="c08")
+    bad = []
+    for (a, b, what), m in zip(eq_cases, outs):
+        ctx.count(("eq", a, b), True, "== correspondence")
+        iv = safe_call(lambda: build_x(a, []) == build_x(b, []))
+        mv = ("ok", bool(m)) if m in (0, 1) else ("!", m)
+        if iv != mv:
+            bad.append({"case": [a, b], "impl_output": iv, "model_output": mv})
+        # oracle, from the property text: equal variants compare equal, different ones do not
+        if what is None and iv != ("ok", True) and structure(build_x(a, [])) == structure(build_x(b, [])):
+            ctx.violation("== is false for structurally identical tags", [a, b], {"impl_output": iv})
+        if what is not None and what != "everything" and iv == ("ok", True):
+            ctx.violation(f"== is true for tags that differ in {what}", [a, b], {"impl_output": iv})
+    ctx.corr_cases += len(eq_cases)
+    ctx.obligation(f"correspondence == vs the model of _equals_impl ({len(eq_cases)} cases)", not bad)
+    if bad:
+        ctx.extra["disagree_eq"] = bad[:3]
+
+    # the four string forms against the pure-layer function
+    form_cases = []
+    for it in range(ctx.budget(300, 5000)):
+        form_cases.append((trees.rand_tree(rng, rng.choice([0, 1, 2, 3]), leaves="TTHRM", names="bbivsc",
+                                           custom=rng.random() < 0.4), rng.random() < 0.3))
+    outs = run_model([[3, 1 if il else 0, ([trees.to_sx(k, lambda p: 0) for k in d[4]] if il else [trees.to_sx(d, lambda p: 0)])]
+                      for d, il in form_cases], driver="c08")
+    bad = []
+    for (d, il), m in zip(form_cases, outs):
+        ctx.count(("forms-model", d, il), True, "string forms correspondence")
+        x = build(d)
+        if il:
+            x = TagList(*x.children)
+        iv = [safe_call(lambda: str(x)), safe_call(lambda: repr(x)), safe_call(lambda: x._repr_html_())]
+        mv = [trees.res_decode(o[0], unS) if isinstance(o, list) and len(o) == 1 else ("!", o) for o in m] \
+            if isinstance(m, list) and len(m) == 3 else ("!", m)
+        if iv != mv:
+            bad.append({"case": [d, il], "impl_output": iv, "model_output": mv})
+    ctx.corr_cases += len(form_cases)
+    ctx.obligation(f"correspondence str/repr/_repr_html_ vs the pure layer ({len(form_cases)} cases)", not bad)
+    if bad:
+        ctx.extra["disagree_forms"] = bad[:3]
+
+    n = ctx.budget(1000, 20000)
     for it in range(n):
         root = rng.choice([None, None, None, "html", "body", "head"])
         custom = rng.random() < 0.3
@@ -161,18 +753,28 @@ def run(ctx: Ctx) -> None:
         before = snapshot([x, shared])
         results = {}
         for op in ops:
-            r = safe_call(lambda: apply_op(op, x, rng))
+            # the receiver is the tag or (one time in four) its child list, a TagList
+            recv = x.children if rng.random() < 0.25 else x
+            r = safe_call(lambda: apply_op(op, recv, rng))
             after = snapshot([x, shared])
             if after != before:
                 ctx.violation(f"{op} changed an object reachable from its receiver", {"tree": d, "ops": ops, "op": op},
                               {"before": _first_diff(before, after)})
                 before = after
+            if op == "copy" and r[0] == "ok":
+                _check_copy(ctx, recv, r[1], d, rng, lambda: snapshot([x, shared]))
+            if op == "tagify" and r[0] == "ok" and recv is not x:
+                common = set(mutable_ids(recv)) & set(mutable_ids(r[1]))
+                if common:
+                    ctx.violation("tagify() result shares a tag, child list, attribute map or metadata node object with the original",
+                                  {"tree": d, "receiver": "child list"}, {})
             if op in ("str", "repr", "render") and r[0] == "ok":
                 v = r[1]["html"] if op == "render" else r[1]
-                results.setdefault("s", v)
-                if results["s"] != v:
+                key = "s" if recv is x else "l"
+                results.setdefault(key, v)
+                if results[key] != v:
                     ctx.violation("str(x), repr(x), x.render()['html'] differ or change between calls",
-                                  {"tree": d, "ops": ops}, {"first": results["s"], "now": v})
+                                  {"tree": d, "ops": ops}, {"first": results[key], "now": v})
         # dependency methods are read-only too
         for dep in all_deps(x, [])[:3]:
             f = rng.choice(DEP_OPS)
@@ -242,6 +844,31 @@ def run(ctx: Ctx) -> None:
                 ctx.violation(f"== is true for tags that differ in {m[0]}", [d, m[1]], {})
         if x == TagList(*x.children) or x == str(x) or x == HTMLDependency("a", "1"):
             ctx.violation("== is true for objects of different kinds", d, {})
+
+
+def _check_copy(ctx, orig, cp, d, rng, snap):
+    """copy.copy(x): a new object with its own attribute map / child list (so that assigning to
+    the copy's fields, attributes or child list cannot touch the original); the children are
+    shared (a shallow copy)"""
+    if cp is orig or (isinstance(orig, Tag) and (cp.attrs is orig.attrs or cp.children is orig.children)) \
+            or (isinstance(orig, TagList) and cp.data is orig.data):
+        ctx.violation("copy.copy(x) shares its attribute map or child list object with x", {"tree": d}, {})
+        return
+    if structure(cp) != structure(orig):
+        ctx.violation("copy.copy(x) is not structurally identical to x", {"tree": d}, {})
+    before = snap()
+    if isinstance(cp, Tag):
+        cp.append("MUT", Tag("mut"))
+        cp.attrs["data-mut"] = "1"
+        cp.name = cp.name + "x"
+        cp.insert(0, HTML("<mut>"))
+        if len(cp.children) > 2:
+            cp.children.pop()
+    else:
+        cp.append("MUT")
+        cp.insert(0, Tag("mut"))
+    if snap() != before:
+        ctx.violation("mutating the fields, attributes or child list of copy.copy(x) changed x", {"tree": d}, {})
 
 
 def _first_diff(a, b, path=""):
